@@ -1,8 +1,9 @@
 import KanidmModel.Proto
 import KanidmModel.RangeDiff
+import KanidmModel.RangeEntries
 /-! Driver for C10: `rd <consumer> <supplier>` (range_diff) and `sp <same-domain 0|1> <consumer> <supplier>`
 (supplier_provide_changes decision); a map is `k:min:max,k:min:max` or `-`. -/
-open Kanidm Kanidm.Proto Kanidm.RangeDiff
+open Kanidm Kanidm.Proto Kanidm.RangeDiff Kanidm.RangeEntries
 
 def parseRuv (s : String) : Option Ruv :=
   (splitList s).mapM fun item =>
@@ -11,6 +12,48 @@ def parseRuv (s : String) : Option Ruv :=
       let k ← nat? k; let a ← nat? a; let b ← nat? b
       pure (k, (⟨a, b⟩ : Range))
     | _ => none
+
+/-! `se <ranged> <ruv> <entries> <ranges>` (entries the supplier sends): ranged `s:ts.ts,…`; ruv `s.ts:id.id,…`;
+entries `id:T:s.ts` or `id:L:s.ts:attr.s.ts.repl;attr.s.ts.repl` (`;`-list may be empty); reply
+`id:T:s.ts` / `id:L:s.ts:attr.s.ts;…` joined by `,` or `-`. -/
+def dotNats (s : String) : Option (List Nat) :=
+  if s == "" then some [] else (s.splitOn ".").mapM nat?
+
+def parseRanged (s : String) : Option Ranged :=
+  (splitList s).mapM fun item =>
+    match item.splitOn ":" with
+    | [k, tss] => do pure ((← nat? k), (← dotNats tss))
+    | _ => none
+
+def parseCid (s : String) : Option Cid :=
+  match dotNats s with
+  | some [a, b] => some ⟨a, b⟩
+  | _ => none
+
+def parseRuvIdx (s : String) : Option RuvIdx :=
+  (splitList s).mapM fun item =>
+    match item.splitOn ":" with
+    | [c, ids] => do pure ((← parseCid c), (← dotNats ids))
+    | _ => none
+
+def parseEntries (s : String) : Option (List Entry) :=
+  (splitList s).mapM fun item =>
+    match item.splitOn ":" with
+    | [id, "T", c] => do pure ⟨(← nat? id), .tombstone (← parseCid c)⟩
+    | [id, "L", c, chs] => do
+      let chs ← (if chs == "" then some [] else (chs.splitOn ";").mapM fun ch =>
+        match dotNats ch with
+        | some [a, s, ts, r] => some (a, (⟨s, ts⟩ : Cid), r != 0)
+        | _ => none)
+      pure ⟨(← nat? id), .live (← parseCid c) chs⟩
+    | _ => none
+
+def showSent (l : List Sent) : String :=
+  if l.isEmpty then "-" else
+  ",".intercalate (l.map fun
+    | .tombstone id c => s!"{id}:T:{c.s}.{c.ts}"
+    | .live id c attrs =>
+      s!"{id}:L:{c.s}.{c.ts}:" ++ ";".intercalate (attrs.map fun (a, c) => s!"{a}.{c.s}.{c.ts}"))
 
 def handle (line : String) : String :=
   match tokens line with
@@ -25,6 +68,10 @@ def handle (line : String) : String :=
       else if d = "0" then showDecision (supplierProvide false c s)
       else "bad-op"
     | _, _ => "bad-op"
+  | ["se", rg, rv, es, cx] =>
+    match parseRanged rg, parseRuvIdx rv, parseEntries es, parseRuv cx with
+    | some rg, some rv, some es, some cx => showSent (supplyEntries rg rv es cx)
+    | _, _, _, _ => "bad-op"
   | _ => "bad-op"
 
 def main : IO Unit := runPure handle
